@@ -33,4 +33,9 @@ CLAIMED['C14'] = {
     'text': 'The per-cycle statistic is proved to be the supplied (arbitrary) function applied to exactly the samples carrying each label, one entry per cycle, and the projection to be constant within cycles and NaN elsewhere, for all lengths and labellings. phase_align and bin_by_phase (scipy interpolation, generator iteration, averages of possibly empty selections) are decided by the bounded stand-in only and are reported as not covered by the proof.',
     'note': PROOF_NOTE + 'phase_align / bin_by_phase clauses are bounded (run-time contracts over stated grids).',
 }
+CLAIMED['C17'] = {
+    'technique': 'deductive: contract of _unique_inds (positions in the original array; sort/where assumed) and of the final selection loop + return of kdt_match for an arbitrary assignment matrix (greedy loop abstracted), VCs from the real source discharged by z3/cvc5; bounded stand-in: random instances 1-4 features x <= 60/200 rows x K 1..15 x 3 bounds, exhaustive small 1-d instances',
+    'text': 'Range, equal length, strict ordering of x indices, K-neighbour membership and the distance bound are proved for every input from the final loop under the assumed cKDTree.query contract; _unique_inds is proved to index the original array. Injectivity of the y indices depends on the greedy column loop, which is abstracted: it is decided by the bounded stand-in only and reported as not covered by the proof.',
+    'note': PROOF_NOTE + 'Greedy loop body not verified (abstracted); injectivity bounded-only.',
+}
 PENDING_REASON = {}
